@@ -228,7 +228,7 @@ Definition run_model (T : ntable) (e : env) : mres :=
                | Accept r => MAccept (op_of_request r) (r_ext r)
                | Reject c => MReject c
                end
-  | EWs p di f => match handle_message (tbl_parse Jsoniter T) p di f with
+  | EWs p di f => match handle_message (tbl_parse StdJson T) p di f with
                   | WsStart id q v n => MStart id {| o_query := q; o_vars := v; o_opname := n |}
                   | WsIgnored => MIgnored
                   | WsClosed c => MClosed c
@@ -280,7 +280,7 @@ Definition well_formed (T : ntable) (e : env) : bool :=
   | EHttp h => http_well_formed (tbl_parse StdJson T) h
   | EWs p di f =>
       di && match f with
-            | Some fr => bytes_eqb (f_type fr) (start_type p) && ws_well_formed (tbl_parse Jsoniter T) f
+            | Some fr => bytes_eqb (f_type fr) (start_type p) && ws_well_formed (tbl_parse StdJson T) f
             | None => false
             end
   end.
@@ -312,7 +312,7 @@ Definition jparse_eqb (a b : jparse) : bool :=
   | _, _ => false
   end.
 
-Definition flavour_of (e : env) : flavour := match e with EHttp _ => StdJson | EWs _ _ _ => Jsoniter end.
+Definition flavour_of (e : env) : flavour := match e with EHttp _ => StdJson | EWs _ _ _ => StdJson end.
 
 Definition oracle_sub (J : jtable) (T : ntable) (s : sub) : option sexp :=
   if negb (forallb (fun t => forallb (fun tok => match num_find T tok with Some _ => true | None => false end)
@@ -372,6 +372,33 @@ Fixpoint check_same (es : list entry) : option sexp :=
       | None => check_same r
       end
   end.
+
+(** Spec oracle, beyond the canonical envelopes: the same bytes as POST application/json body
+    (no ?query=) and as start / subscribe payload on an initialised connection: whatever
+    NewRequestFromHTTP accepts, the socket decoder must hand to HandleStart as the same operation
+    (judged on what the implementation's decoders did, not on the model) *)
+Definition same_text_pair (s1 s2 : sub) : option sexp :=
+  match s_env s1, s_env s2 with
+  | EHttp h, EWs p true (Some f) =>
+      if bytes_eqb (e_method h) m_post && bytes_eqb (e_media h) mt_json && is_empty (url_get k_query (e_url h)) &&
+         bytes_eqb (f_type f) (start_type p) &&
+         match f_payload f with Some t => bytes_eqb t (e_body h) | None => false end then
+        match s_dec s1 with
+        | DAccept q v n _ =>
+            match s_dec s2 with
+            | DStart _ q' v' n' =>
+                if op_eqb {| o_query := q; o_vars := v; o_opname := n |} {| o_query := q'; o_vars := v'; o_opname := n' |} then None
+                else Some (v_oracle_fail ("same-text-differs:" ++ s_label s1) [])
+            | _ => Some (v_oracle_fail ("same-text-differs:" ++ s_label s1) [])
+            end
+        | _ => None
+        end
+      else None
+  | _, _ => None
+  end.
+
+Definition check_same_text (ss : list sub) : option sexp :=
+  first_some (fun s1 => first_some (same_text_pair s1) ss) ss.
 
 (** every transport that can carry the operation must be among the canonical submissions *)
 Definition has_canonical (ss : list sub) (t : string) : bool :=
@@ -436,7 +463,7 @@ Definition check (c : sexp) : sexp :=
                     match first_some (oracle_sub J T) subs with
                     | Some v => v
                     | None =>
-                        match check_same (entries T 0 subs) with
+                        match (match check_same (entries T 0 subs) with Some v => Some v | None => check_same_text subs end) with
                         | Some v => v
                         | None =>
                             match first_some (check_sub T o) subs with
